@@ -189,6 +189,8 @@ def gen_case(rnd, tier, index):
     spec = wbgen.generate(rnd, knobs)
     if rnd.random() < 0.1:
         wbgen.add_numpy_gadget(rnd, spec)     # cells that hold numpy scalars
+    if rnd.random() < 0.04:
+        wbgen.add_big_range_gadget(rnd, spec)     # a range of > 1000 cells, nearly all blank
     cfg = draw_cfg(rnd, spec, tier)
     if cfg.get('origin') != 'xlsx' and rnd.random() < 0.12:
         wbgen.add_table_gadget(rnd, spec)     # structured references
